@@ -637,6 +637,9 @@ pub struct InstallScript {
     pub progress: Vec<f32>,
     pub results: Vec<AppRes>,
     pub install_result: String,
+    /// false = the installer reports its last progress value (the value is handed to the
+    /// observer and polled once) but finishes without waiting for the acknowledgement
+    pub await_last_ack: bool,
 }
 
 #[allow(unused_variables)]
@@ -667,6 +670,7 @@ pub trait Director: Send {
             progress: vec![],
             results: vec![AppRes::Installed; offered],
             install_result: "result".into(),
+            await_last_ack: true,
         }
     }
     fn reboot(&mut self, w: &mut Inner) -> bool {
@@ -1267,15 +1271,27 @@ impl Installer for VInstaller {
                 });
                 d.install(wi, &install_plan.id, install_plan.offered)
             });
-            for p in &script.progress {
+            let n_progress = script.progress.len();
+            for (pi, p) in script.progress.iter().enumerate() {
                 maybe_block(&w, |b| b.progress, OpKind::Progress, 0).await;
                 w.lock().unwrap().log.push(Obs::ProgressSent(*p));
                 if let Some(o) = observer {
+                    if pi + 1 == n_progress && !script.await_last_ack {
+                        // report it (one poll hands the value over), do not wait for the acknowledgement
+                        let mut f = o.receive_progress(None, *p, None, None);
+                        let _ = futures::poll!(&mut f);
+                        drop(f);
+                        continue;
+                    }
                     o.receive_progress(None, *p, None, None).await;
                 }
                 w.lock().unwrap().log.push(Obs::ProgressAcked(*p));
             }
-            maybe_block(&w, |b| b.install, OpKind::Install, 0).await;
+            if script.await_last_ack || n_progress == 0 {
+                maybe_block(&w, |b| b.install, OpKind::Install, 0).await;
+            }
+            // (an installer that does not wait for the last acknowledgement returns in the very
+            // poll in which it reported the value)
             w.lock()
                 .unwrap()
                 .log
